@@ -1007,7 +1007,7 @@ def _substance_witness():
         t1, v1, r1 = q('%s of 1 %s %s' % (out, unit_in, sub))
         if v1 is None:
             return bad('%s of 1 %s %s' % (out, unit_in, sub), 'a number', t1, 'expected a number, got %r' % t1.splitlines()[0])
-        for a in (_F(3), _F(7, 2), _F(1, 1000)):
+        for a in (_F(3), _F(7, 2), _F(1, 1000), _F(0), _F(-2)):
             line = '%s of (%s/%s) %s %s' % (out, a.numerator, a.denominator, unit_in, sub)
             t, v, r = q(line)
             if v != a * v1:
@@ -1038,9 +1038,8 @@ def _substance_witness():
     # wrong dimensionality of the amount
     for line in ('mass of 3 m water', 'volume of 3 s water', 'mass of (0 m water)', 'volume of (0 s water)', 'mass of ((3 - 3) m water)', 'mass of 2 kg gold'):
         t, v, r = q(line)
-        zero = '(0 ' in line or '(3 - 3)' in line
-        if line != 'mass of 2 kg gold' and not (t.startswith('ERR') if zero else t.startswith('ERR Conformance')):
-            return bad(line, 'a refusal' if zero else 'a conformance error', t, 'an amount of the wrong dimensionality is not refused' + ('' if zero else ' with a conformance error'))
+        if line != 'mass of 2 kg gold' and not t.startswith('ERR Conformance'):
+            return bad(line, 'a conformance error', t, 'an amount of the wrong dimensionality is not refused with a conformance error')
     # formulas: exact count-weighted sums
     mm = {}
     for sym, name in _SUBST_ELEMS.items():
